@@ -8,6 +8,10 @@
      RFC 6066 section 8     (CertificateStatus after Certificate, may be omitted)
      RFC 4279 section 2     (PSK: no Certificate; ServerKeyExchange optional (identity hint), mandatory for DHE_PSK)
      RFC 8446 section 2 figures 1-4 (full, HelloRetryRequest, PSK resumption, 0-RTT), NewSessionTicket post-handshake
+     RFC 6347 section 4.2 figure 1, 4.2.1 (DTLS 1.0 / 1.2: the TLS <= 1.2 flows, preceded by the cookie exchange ClientHello with an
+                             empty cookie / HelloVerifyRequest; the sequences are those of the peer's message_seq numbering
+                             (4.2.2): a retransmitted copy or a message that arrives ahead of its predecessors is not a further
+                             element of the sequence - the model drops both without a trace, see HsModel.classify)
    A flow lists both directions, each message tagged with its sender; a side's legal sequence is the projection on
    what the peer sends.  ChangeCipherSpec is a message in TLS <= 1.2.  The TLS 1.3 middlebox-compatibility
    ChangeCipherSpec is not part of the TLS 1.3 grammar (RFC 8446 section 5: dropped on receipt). *)
@@ -95,7 +99,12 @@ Definition cauth_consistent (md : mode) (f : list (side * mk)) : Prop :=
   md_server md = true -> (md_cauth md = true <-> In (Sv, KHs CREQ) f).
 
 (* RFC 6347 4.2.1 / figure 1: ClientHello (empty cookie), HelloVerifyRequest, then the handshake proper starting with the
-   ClientHello that carries the cookie.  The exchange is optional (the server MAY skip it); a server keeps no state for it. *)
+   ClientHello that carries the cookie.  A server keeps no state for the exchange, so its own sequence starts with the ClientHello
+   that carries the cookie (first alternative below: the cookie-less one was answered and forgotten); a client sees the
+   HelloVerifyRequest or - from a server configured not to ask for cookies (MAY, 4.2.1) - the ServerHello at once.  What no
+   alternative contains is a handshake that goes on from a ClientHello with an EMPTY cookie ([KCh0] followed by anything but the
+   cookie-bearing ClientHello): the default policy (SHOULD, 4.2.1) of asking every new client for a cookie, which is this
+   implementation's only one. *)
 Definition cookie_round : list (side * mk) := [(Cl, KCh0); (Sv, KHs HVR)].
 Definition dflow (md : mode) (f : list (side * mk)) : Prop :=
   flow md f \/ (md_dtls md = true /\ exists f0, flow md f0 /\ f = cookie_round ++ f0).
